@@ -24,7 +24,7 @@ VARIABLES pre,    \* state before the last event
 
 InitEv == [step |-> "Init", conn |-> 0, req |-> [k |-> "none"], given |-> [k |-> "none"], proc |-> FALSE,
            sid |-> 0, ret |-> "ok", out |-> NoOut, dead |-> {}, obsOK |-> TRUE,
-           paired |-> FALSE, fl |-> {}, out0 |-> NoOut, same0 |-> TRUE]
+           paired |-> FALSE, fl |-> {}, out0 |-> NoOut, same0 |-> TRUE, reqs |-> <<>>, rets |-> <<>>]
 
 IsStep  == ev.step # "Init"
 Actor   == ev.conn
@@ -381,9 +381,10 @@ Ok_C07 ==
     /\ \A s \in DOMAIN cur.sess : \A p \in DOMAIN cur.sess[s].mem :
           cur.sess[s].mem[p] \in Conns /\ SidOf(cur, cur.sess[s].mem[p]) = s /\ PidOf(cur, cur.sess[s].mem[p]) = p
     \* a join answered with success leaves the requester in the session found under the returned id
-    /\ Proc /\ Has(ev.out[Actor], {"JOIN_RESPONSE"}) =>
-          LET m == First(ev.out[Actor], {"JOIN_RESPONSE"}) IN
-          /\ m.sid \in DOMAIN cur.sess /\ SidOf(cur, Actor) = m.sid /\ PidOf(cur, Actor) = m.pid
+    \* (every connection answered in this step: one in a sequential step, several in a concurrent block)
+    /\ \A c \in Conns : Has(ev.out[c], {"JOIN_RESPONSE"}) =>
+          LET m == First(ev.out[c], {"JOIN_RESPONSE"}) IN
+          /\ m.sid \in DOMAIN cur.sess /\ SidOf(cur, c) = m.sid /\ PidOf(cur, c) = m.pid
           /\ cur.sess[m.sid].uuid = m.uuid
     \* a session that is new under an id (first use or reuse) starts empty under a new uuid
     /\ \A s \in DOMAIN cur.sess :
@@ -391,9 +392,76 @@ Ok_C07 ==
              /\ cur.sess[s].uuid \notin {pre.sess[x].uuid : x \in DOMAIN pre.sess}
              /\ cur.sess[s].ents = <<>> /\ cur.sess[s].comps = <<>> /\ cur.sess[s].types = <<>>
              /\ cur.sess[s].acts = <<>> /\ cur.sess[s].assets = <<>> /\ cur.sess[s].subs = <<>>
-             /\ Cardinality(DOMAIN cur.sess[s].mem) = 1
+             /\ (ev.step # "Block" => Cardinality(DOMAIN cur.sess[s].mem) = 1)
     /\ gh.fresh
     /\ ev.dead = {}         \* no ended session keeps a running frame worker
+
+(***************************************************************************)
+(* Concurrent blocks (schedules clauses of C01, C02, C07, C09): a block is *)
+(* a set of requests issued concurrently by different connections; the     *)
+(* record carries what every connection was sent, in order, and the state  *)
+(* at quiescence.  Only convergence at quiescence is demanded.             *)
+(***************************************************************************)
+IsBlock == IsStep /\ ev.step = "Block"
+
+\* a client must treat adds as upserts and deletes of unknown ids as no-ops under concurrency
+ApplyLenient(v, m, req) ==
+  CASE m.t = "JOIN_BROADCAST" -> [v EXCEPT !.parts = @ \cup {m.pid}]
+    [] m.t = "LEAVE_BROADCAST" -> [v EXCEPT !.parts = @ \ {m.pid}]
+    [] m.t = "ENTITY_ADD_BROADCAST" -> [v EXCEPT !.ents = Put(@, m.ent[1], EntOfRow(m.ent))]
+    [] m.t = "ENTITY_DELETE_BROADCAST" -> DropEnt(v, m.eid)
+    [] m.t = "POSE_BROADCAST" -> IF m.eid \in DOMAIN v.ents THEN [v EXCEPT !.ents[m.eid].px = m.px] ELSE v
+    [] m.t = "COMP_ADD_BROADCAST" -> [v EXCEPT !.comps = Put(@, <<m.comp[1], m.comp[2]>>, m.comp[3])]
+    [] m.t = "COMP_UPDATE_BROADCAST" -> [v EXCEPT !.comps = Put(@, <<m.comp[1], m.comp[2]>>, m.comp[3])]
+    [] m.t = "COMP_DELETE_BROADCAST" -> [v EXCEPT !.comps = Drop(@, {<<m.comp[1], m.comp[2]>>})]
+    [] m.t = "ACTION_BROADCAST" -> [v EXCEPT !.acts = Put(@, <<m.act[1], m.act[2]>>, [ts |-> m.act[3], data |-> m.act[4]])]
+    [] m.t = "ASSET_ADD_BROADCAST" -> [v EXCEPT !.assets = Put(@, m.asset[1], [id |-> m.asset[2], asset |-> m.asset[3], owner |-> m.asset[4]])]
+    [] OTHER -> ApplyMsg(v, m, req)
+
+RECURSIVE ApplySeqLenient(_, _, _)
+ApplySeqLenient(v, ms, req) == IF ms = <<>> THEN v ELSE ApplySeqLenient(ApplyLenient(v, Head(ms), req), Tail(ms), req)
+
+ReqOfConn(e, c) ==   \* the request connection c issued in the block (if any)
+  IF \E i \in DOMAIN e.reqs : e.reqs[i][1] = c THEN e.reqs[CHOOSE i \in DOMAIN e.reqs : e.reqs[i][1] = c][2] ELSE [k |-> "none"]
+
+NextViewsBlock(v0s, e, st1) ==
+  [c \in Conns |->
+     LET v1 == ApplySeqLenient(v0s[c], e.out[c], ReqOfConn(e, c))
+     IN IF st1.conns[c].sid = 0 THEN [NoView EXCEPT !.bad = v1.bad] ELSE v1]
+
+\* C01 (schedules): at quiescence every member's replica equals the server's state
+Ok_C01c ==
+  IsBlock /\ ev.ret = "ok" /\ Flags = {} =>
+    \A c \in Conns : (SidOf(cur, c) # 0 /\ SidOf(cur, c) \in DOMAIN cur.sess) => ViewMatches(c)
+
+\* (after a concurrent block the sequential steps that follow are judged by convergence only)
+Ok_C01q == IsStep /\ ev.ret # "deadlock" /\ Flags = {} =>
+             \A c \in Conns : (SidOf(cur, c) # 0 /\ SidOf(cur, c) \in DOMAIN cur.sess) => ViewMatches(c)
+
+\* C09: every request of the block completed
+Ok_C09c == IsBlock => ev.ret = "ok" /\ \A i \in DOMAIN ev.rets : ev.rets[i] \in {"ok", "err", "closed"}
+
+\* C02 (schedules): with respect to the participants that are members throughout the block, every accepted
+\* change of another connection is relayed exactly once
+Ok_C02c ==
+  IsBlock /\ ev.ret = "ok" /\ Flags = {} =>
+    \A d \in Conns :
+      LET s == SidOf(pre, d) IN
+      (s # 0 /\ SidOf(cur, d) = s /\ PidOf(cur, d) = PidOf(pre, d) /\ ReqOfConn(ev, d).k \notin {"Join", "Disc"}) =>
+        \A i \in DOMAIN ev.reqs :
+          LET c == ev.reqs[i][1]  rq == ev.reqs[i][2]  outc == ev.out[c]
+              n(T, P(_)) == Cardinality({j \in DOMAIN ev.out[d] : ev.out[d][j].t \in T /\ P(ev.out[d][j])})
+          IN c # d =>
+             /\ (rq.k = "EntityAdd" /\ SidOf(pre, c) = s /\ Has(outc, {"ENTITY_ADD_RESPONSE"})) =>
+                   n({"ENTITY_ADD_BROADCAST"}, LAMBDA m : m.ent[1] = First(outc, {"ENTITY_ADD_RESPONSE"}).eid) = 1
+             /\ (rq.k = "EntityDelete" /\ SidOf(pre, c) = s /\ Has(outc, {"ENTITY_DELETE_RESPONSE"})) =>
+                   n({"ENTITY_DELETE_BROADCAST"}, LAMBDA m : m.eid = rq.eid) = 1
+             /\ (rq.k = "Join" /\ Has(outc, {"JOIN_RESPONSE"}) /\ First(outc, {"JOIN_RESPONSE"}).sid = s) =>
+                   n({"JOIN_BROADCAST"}, LAMBDA m : m.pid = First(outc, {"JOIN_RESPONSE"}).pid) = 1
+             /\ (SidOf(pre, c) = s /\ (SidOf(cur, c) # s \/ PidOf(cur, c) # PidOf(pre, c))) =>
+                   n({"LEAVE_BROADCAST"}, LAMBDA m : m.pid = PidOf(pre, c)) = 1
+             /\ (rq.k = "Custom" /\ SidOf(pre, c) = s /\ rq.to = <<>> /\ rq.len <= MaxBody) =>
+                   n({"CUSTOM_BROADCAST"}, LAMBDA m : m.pid = PidOf(pre, c) /\ m.dig = rq.dig) = 1
 
 (***************************************************************************)
 (* C10  server-issued ids never collide and are never reissued             *)
